@@ -1048,6 +1048,10 @@ func main() {
 			var cv CaseV
 			c.LoadReplay(&cv)
 			runCaseV(cv, true)
+		case "wire":
+			var w wireCase
+			c.LoadReplay(&w)
+			runWire(w, true)
 		case "merkle":
 			var rm struct {
 				Lens []int  `json:"lens"`
@@ -1083,6 +1087,9 @@ func main() {
 
 	r := hx.NewRNG(c.Seed)
 	thorough := c.Thorough()
+
+	// ---- W. the wire: UnitFromProto on honest and malformed protobuf units ----
+	wireStage(r.Fork(77), thorough)
 
 	// ---- A. padding: all lengths 0..300 and the varint / divisor boundaries, malformed prefixes ----
 	lens := []int{}
